@@ -250,15 +250,18 @@ func NewBroadcaster(opcode Opcode, payload []byte) *Broadcaster {
 // Writes the frame data to the connection
 func (c *Broadcaster) writeFrame(socket *Conn, frame *bytes.Buffer) error {
 	verifSched("b.start", socket)
+	verifSched("b.lock", socket)
+	socket.mu.Lock()
+	defer socket.mu.Unlock()
+
+	// The closed flag must be tested while holding the lock, as doWrite does:
+	// tested before, a Close frame could be written in between and this frame would follow it.
 	if socket.isClosed() {
 		return ErrConnClosed
 	}
-	verifSched("b.lock", socket)
-	socket.mu.Lock()
 	verifSched("b.write", socket)
 	var err = internal.WriteN(socket.conn, frame.Bytes())
 	_, _ = socket.cpsWindow.Write(c.payload)
-	socket.mu.Unlock()
 	return err
 }
 
